@@ -7,8 +7,10 @@ From BV Require Import Base.Prelude Shell.Syntax Shell.ModelExec Shell.SpecExec 
     function calls, loops, conditions ...), if brush's interpreter is entered with its threaded flag
     equal to "some enclosing position is exempt" ([exempt stk]), every recursive call is again made
     with the flag of its own position stack, and brush and the declarative specification exit at
-    the same command with the same status and output - unless errexit fired on a brace group / if /
-    loop / case that failed quietly (ghost mark [GCompound], the known divergence). *)
+    the same command with the same status and output.  (Since the fix "errexit must not fire on a
+    brace group / if / loop / case that failed quietly" this holds without an errexit-related side
+    condition; the only ghost mark left, [GCond], concerns the status of a loop left from its
+    condition and is C02's.) *)
 Theorem c03_errexit_simulation : forall fuel c stk ctx l w,
   scope_cmd ctx c = [] -> funs_ok (sh w) -> (length ctx <= l)%nat ->
   sim (expect_c c stk ctx l) (exec fuel c (exempt stk) w) (sexec fuel c stk (emb w 0 0 l)).
@@ -29,11 +31,11 @@ Theorem c03_never_exits_in_exempt : forall stk s s',
 Proof. exact spec_exit_not_exempt. Qed.
 Print Assumptions c03_never_exits_in_exempt.
 
-(** the witness of the known divergence: set -e; { false && true; }; echo m1 *)
-Theorem c03_errexit_compound_refuted :
-  differs 20 w_compound /\ ghost_of (run_model 20 w_compound) = [GCompound].
-Proof. exact compound_refuted. Qed.
-Print Assumptions c03_errexit_compound_refuted.
+(** regression for the repaired defect: set -e; { false && true; }; echo m1  goes on, as in bash *)
+Theorem c03_errexit_compound_repaired :
+  agrees 20 w_compound /\ obs_model (run_model 20 w_compound) = Some (ENormal, 0%nat, [EMark 1]).
+Proof. exact compound_repaired. Qed.
+Print Assumptions c03_errexit_compound_repaired.
 
 (** pipefail_status: the status brush computes for a pipeline is the last stage's, or under
     pipefail the rightmost non-zero one *)
